@@ -346,5 +346,51 @@ def _has_call(sv, ev, suffix, d=0):
     return False
 
 
-RULES = [r13_1, r13_2, r13_3, r13_4, r13_5, r13_6, r13_7]
-FLOORS = {"R13.1": 30, "R13.2": 100, "R13.3": 10, "R13.4": 10, "R13.5": 3, "R13.6": 20, "R13.7": 4}
+def r13_8(ctx):
+    """ordered-list searches advance past a node only when its key is STRICTLY less than the searched key: the iteration that compared a node's
+    key with the key and then moves on to the next node must have established cmp < 0 (an equal key stops the search - otherwise a duplicate
+    can be inserted behind it)"""
+    n = 0
+    for F in ctx.db.funcs.values():
+        if not re.match(r"cds::intrusive::(IterableList::(find_prev|search|inserting_search)|MichaelList::search|LazyList::search)$", F.q):
+            continue
+        cfg = cfg_of(F)
+        for h in list(cfg.loops()):
+            try:
+                ps = PathSim(F, bound=6000, start=h).run()
+            except PathBoundExceeded:
+                continue
+            for p in ps:
+                if p.outcome != "back":
+                    continue
+                ev = p.events
+                cm = [e for e in ev if e.kind == "call" and e.q and e.q.endswith("operator()") and len(e.args) == 2 and any(_has_call(a, ev, "to_value_ptr") or
+                      (isinstance(a, tuple) and a[:1] == ("deref",)) for a in e.args)]
+                if not cm:
+                    continue
+                c = cm[-1]
+                rel = None
+                for atom, tv, bev in cond_atoms(p):
+                    if ev.index(bev) < ev.index(c):
+                        continue
+                    if isinstance(atom, tuple) and atom[:1] == ("op",) and len(atom) == 4 and c.val in atom[2:4] and C(0) in atom[2:4]:
+                        op = atom[1]
+                        if atom[2] == C(0):      # 0 op c  ->  c op' 0
+                            op = {"<": ">", ">": "<", "<=": ">=", ">=": "<="}.get(op, op)
+                        rel = (op, tv)
+                    elif atom == c.val:
+                        rel = ("!=", tv)        # used as a truth value
+                if rel is None:
+                    continue
+                n += 1
+                strictly_less = rel in (("<", True), (">=", False))
+                ctx.check(strictly_less, "R13.8", F, "the search moves on to the next node only after finding the current key strictly less than the searched key", c.node,
+                          detail="decision on the comparison before advancing: cmp %s 0 is %s. If an equal key does not stop the search, the position returned lies "
+                          "behind it and a second copy of the key can be linked. %s" % (rel[0], rel[1], R), sig="advance-strictly-less")
+    if n < 4:
+        ctx.broken("ordered-list search advance decisions not found (%d)" % n)
+r13_8.rule_id = "R13.8"
+
+
+RULES = [r13_1, r13_2, r13_3, r13_4, r13_5, r13_6, r13_7, r13_8]
+FLOORS = {"R13.1": 30, "R13.2": 100, "R13.3": 10, "R13.4": 10, "R13.5": 3, "R13.6": 20, "R13.7": 4, "R13.8": 4}
